@@ -217,6 +217,9 @@ static const char *vh_kind_name(int k)
         case ABTI_VEV_WL_BCAST: return "BCAST";
         case ABTI_VEV_WL_TIMEOUT: return "TIMEOUT";
         case ABTI_VEV_WL_RETURN: return "RETURN";
+        case ABTI_VEV_DATA: return "DATA";
+        case ABTI_VEV_LOAD: return "LOAD";
+        case ABTI_VEV_CALLBACK: return "CALLBACK";
         case VH_EV_OP_BEGIN: return "BEGIN";
         case VH_EV_OP_END: return "END";
         case VH_EV_NOTE: return "NOTE";
@@ -278,7 +281,12 @@ static void vh_dump(FILE *f, const char *status)
                     fprintf(f, " n%d", who);
                 fprintf(f, " %" PRIuPTR, e->c);
             } else {
-                fprintf(f, " %" PRIuPTR " %" PRIuPTR, e->b, e->c);
+                /* c may be the address of a registered object (e.g. the mutex bound to a cond) */
+                int ci = e->c ? vh_find_obj(e->c) : -1;
+                if (ci >= 0)
+                    fprintf(f, " %" PRIuPTR " %s", e->b, vh_objs[ci].name);
+                else
+                    fprintf(f, " %" PRIuPTR " %" PRIuPTR, e->b, e->c);
             }
         } else {
             fprintf(f, " %" PRIdPTR " %" PRIdPTR " %" PRIdPTR, (intptr_t)e->a, (intptr_t)e->b, (intptr_t)e->c);
